@@ -274,6 +274,18 @@ pub fn gen_c18(rng: &mut Rng) -> Value {
         set_flav(&mut st, flav(rng));
         steps.push(st);
     }
+    if rng.chance(1, 4) {
+        // the entry is removed (or the cache cleared, or the value re-written) afterwards: what was extracted stays
+        let mut rm = match rng.below(5) {
+            0 => json!({"k":"api","op":"remove_hash","addr":c0.clone()}),
+            1 => json!({"k":"api","op":"remove_opts","fully":true,"key":0}),
+            2 => json!({"k":"api","op":"clear"}),
+            3 => json!({"k":"api","op":"write","entry":"write_algo","algo":algo,"key":0,"val":0}),
+            _ => json!({"k":"api","op":"remove","key":0}),
+        };
+        set_flav(&mut rm, flav(rng));
+        steps.push(rm);
+    }
     scenario("C18", keys, vals, steps, rng)
 }
 
@@ -360,6 +372,7 @@ pub fn gen_c06(tier: &str, r: u64, ex: u64, rng: &mut Rng) -> Value {
             4 => json!({"k":"env","act":"insert_line","bucket":ki,"boundary":rng.below(6),"hex":"fffec3"}),
             5 => json!({"k":"env","act":"insert_line","bucket":ki,"boundary":rng.below(6),"hex":"000000"}),
             6 => json!({"k":"env","act":"dup_frac","bucket":ki,"a":rng.below(1000),"b":rng.below(1000),"c":rng.below(1000)}),
+            7 if rng.chance(1, 2) => json!({"k":"env","act":"boundary_byte","bucket":ki,"boundary":rng.below(5),"byte":*rng.pick(&[9u64, 9, 32, 0, 13, 0xc3])}),
             7 => json!({"k":"env","act":"insert_line","bucket":ki,"boundary":rng.below(6),"hex":"41".repeat(if rng.chance(1,6) { 1 << 20 } else { 9000 })}),
             _ => json!({"k":"env","act":"garble_frac","bucket":ki,"num":rng.below(1000),"n":rng.range(1, 12),"seed":rng.below(1000)}),
         };
@@ -582,6 +595,9 @@ pub fn gen_c11(rng: &mut Rng) -> Value {
                 st["clock_at_commit"] = json!(clock_text(rng));
             }
         }
+        if !matches!(entry, "write" | "write_algo") && rng.chance(1, 6) {
+            st["vectored"] = json!(true);
+        }
         set_flav(&mut st, flav(rng));
         steps.push(st);
         let f = flav(rng);
@@ -692,6 +708,10 @@ pub fn gen_c19(rng: &mut Rng) -> Value {
     steps.push(json!({"k":"env","act":"write_file","path":"$T/sub/t1","val":1}));
     // a second file with the same bytes as t0: both link to one content address
     steps.push(json!({"k":"env","act":"write_file","path":"$T/twin","val":0}));
+    if rng.chance(1, 5) {
+        // the file to be linked is read-only (it stays that way, whatever happens to the entry)
+        steps.push(json!({"k":"env","act":"chmod","path":"$T/t0","mode":*rng.pick(&[0o444u64, 0o400, 0o555])}));
+    }
     let twin_first = rng.chance(1, 4);
     if twin_first {
         let mut l = json!({"k":"api","op":"link_to","entry":"fn","key":1,"target":"$T/twin"});
@@ -1070,12 +1090,19 @@ pub fn gen_c12(rng: &mut Rng) -> Value {
     if rng.chance(1, 8) {
         // something that is not the library's lies in the cache directory when it is cleared
         let at = rng.idx(steps.len() + 1);
-        steps.insert(at, json!({"k":"env","act":"write_file","path":*rng.pick(&["$C/stray-file", "$C/content-v2/stray", "$C/index-v5/stray", "$C/tmp/stray"]),"hex":"00"}));
+        steps.insert(at, json!({"k":"env","act":"write_file","path":*rng.pick(&["$C/stray-file", "$C/content-v2/stray", "$C/index-v5/stray"]),"hex":"00"}));
         steps.push(json!({"k":"api","op":"clear"}));
         if rng.chance(1, 2) {
             steps.push(json!({"k":"api","op":"write","entry":"write","key":0,"val":0}));
         }
     }
     steps.push(json!({"k":"api","op":"list"}));
-    scenario("C12", keys, vals, steps, rng)
+    // states the reference model does not describe (paths that do not resolve, files that are not the library's): only
+    // the three flavours are compared with each other there
+    let unmodelled = steps.iter().any(|s| s["k"] == "env" && (matches!(s["act"].as_str(), Some("symlink_loop") | Some("mkdir")) || s["path"].as_str().map(|p| p.starts_with("$C")).unwrap_or(false)));
+    let mut sc = scenario("C12", keys, vals, steps, rng);
+    if unmodelled {
+        sc["lenient_model"] = json!(true);
+    }
+    sc
 }
